@@ -23,7 +23,7 @@ type c03Params struct {
 	Active                    bool // active health checks: probe rounds with faulted probes are events too
 }
 
-var c03Events = []string{"req-ok", "req-500", "req-refused", "req-abort", "clock+1.1s", "clock+11s", "req-garbage", "req-eof", "req-timeout"}
+var c03Events = []string{"req-ok", "req-500", "req-refused", "req-abort", "clock+1.1s", "clock+11s", "req-garbage", "req-eof", "req-timeout", "req-103-then-500"}
 
 // with active checks: one probe round in which every backend answers the probe that way
 var c03ProbeEvents = []string{"probes-ok", "probes-500", "probes-refuse", "probes-garbage", "probes-eof", "probes-timeout"}
@@ -68,7 +68,7 @@ func (in *c03Inst) Step(ev int) *vh.HViol {
 		in.out = "probed"
 		return nil
 	}
-	mode := []string{"ok", "500", "refuse", "abort", "", "", "garbage", "eof", "timeout"}[ev]
+	mode := []string{"ok", "500", "refuse", "abort", "", "", "garbage", "eof", "timeout", "103+500"}[ev]
 	res := in.k.requestMode("10.0.0.1", mode)
 	in.out = fmt.Sprintf("%d/%v", res.Status, res.Aborted)
 	if res.Status == 0 && !res.Aborted {
